@@ -142,6 +142,10 @@ def exercise(acc, wd, data, input_class, r, expect_accept=False, shells=None, wi
                 acc.count('diag: ' + kind[:50])
             if rc != 0 or b'warning' in res['stderr'] or b'<' in data:
                 acc.seen(data.decode('latin1'))
+            if len(acc.samples) < 3 and (rc == 1 or input_class == 'valid') and len(data) < 600:
+                acc.sample({'input_class': input_class, 'input': data.decode('utf-8', 'replace'), 'shell': shell,
+                            'destination': dest, 'input_via': inp, 'build': bname, 'exit': rc,
+                            'stderr_first_line': res['stderr'].decode('utf-8', 'replace').split('\n')[0][:160]})
             if rc == 0 and shell == 'bash' and r.random() < 0.02:
                 script = res['stdout'] if dest == 'stdout' else res['dest']
                 ok, msg = bashrun.bash_syntax_ok(script.decode('utf-8', 'replace'))
